@@ -25,6 +25,39 @@ CLAIMED = {
  "C09": ("MathComp theorem by induction over arbitrary histories of regenerated predict/update steps (any Jacobians, singular included): symmetric PSD is preserved; the validity gate never refuses a PSD matrix (per real eigenpair, tol <= 0 <= scale). Gate constants regenerated and compared with the implementation on diagonal matrices; long histories on singular-Jacobian models checked on the implementation.",
          "MathComp induction over histories of regenerated steps + gate theorem; implementation histories as search",
          "rounding inside matmul/eig not modelled: 'up to rounding' is checked on histories, not proved (partial)", "5 C09"),
+ "C02": ("Stdlib theorems about the generator's emission layout (Model/CppGen.v): slot consistency and injectivity for any distinct names, entry (i,j) of every Jacobian-like function is the derivative of the i-th row expression w.r.t. the j-th column symbol, every entry assigned exactly once; side conditions on parameters regenerated from ast_fragments.py / cpp.py. Generated text parsed back and compared with the model in Coq; generated code compiled and every function compared by name with exact sympy values.",
+         "Coq theorems on a generator model with regenerated parameters; parse-back correspondence in Coq; compile-and-run against exact oracle",
+         "sympy diff/subs/ccode, g++, Eigen stand-in (real Eigen absent): values are checked by running, not proved", "5 C02"),
+ "C07": ("MathComp theorems: the regenerated C++ templates and Python methods compute the same prediction and update (state, covariance, stored innovation) for the same decision function, and take the same decision; compiled generated filters run against the Python filter on the same named inputs.",
+         "MathComp equality of regenerated C++ and Python formulas (associativity); compiled-filter vs Python correspondence",
+         "gen_ekf.py for both sides; Eigen stand-in; float summation order; values of G,V,M,h,H,Q by C02/C03", "5 C07"),
+ "C08": ("Theorems: any post-CSE program meeting the contract gives the original values (Python block, every program and input); CSE-independence; prefix scope = first i temporaries (regenerated); certified single-assignment checker with soundness theorem, run inside Coq on every generated C++ body and exported Python program; CSE on/off outputs compared on both back ends incl. deeply nested sharing.",
+         "Coq theorems (execute = sequential let; ssa_ok sound) + certified checker on real programs; CSE on/off differential",
+         "sympy cse/simplify value preservation is the stated premise, validated per instance", "5 C08"),
+ "C12": ("Finite proof over the four control x calibration combinations that every ManagedFilter call site passes the argument kinds the generator emits (signatures regenerated from ast_fragments.py; header call sites hand-modelled); tick = specification fold (C11). Real generated filters compiled against the real header for all combinations x 0-3 sensors x several max_dt; recorded steps vs PrimFloat model; tick vs by-hand replay bit-for-bit.",
+         "finite Coq proof on regenerated signatures + hand-modelled header; compile/run correspondence with by-hand replay",
+         "partial: C++ overload resolution/template instantiation modelled as argument kinds; compilation is an observation of g++", "5 C12"),
+ "C13": ("Theorems: named vector/covariance store values under their names, refuse unknown names, shape check, defaults; name-sorted layout is invariant under any permutation of the declaration; evaluation commutes with any consistent renaming; C++ slot consistency. Containers (sequences of constructions on one class) compared with the model in Coq; renamed twins and re-declared copies run through Python and compiled C++ and compared by name.",
+         "Coq theorems (named containers, sort canonicity, renaming substitution lemma) + container correspondence + twin differential",
+         "named containers hand-modelled; renaming theorem is about evaluation, implementations exercised on twins", "5 C13"),
+ "C14": ("Theorems: each of the five entry points accepts exactly the definitions structurally valid in the facts it sees (boolean equivalences under unique dict keys), hence Python and C++ agree; guard sequences re-extracted from the source each run. Every single fault of the listed kinds at every position plus random pairs through all five real entry points (C++ with real output paths), verdicts compared with the model in Coq and with the property text.",
+         "Coq equivalence proofs between guard-sequence models and the validity predicate; exhaustive single-fault injection",
+         "guard models hand-written, pinned by gen_guards.py; sympy free_symbols / set / dict semantics", "5 C14"),
+ "C15": ("Theorems: every layout list is the name-sorted declared list (regenerated facts) and sorting is invariant under permutation, so layout and argument list do not depend on declaration order / container / hash seed; audit of every iteration site of the generators proves none walks a set/dict in hash order where it can reach output. Generation under several hash seeds, containers, orders, repeated in-process.",
+         "Coq permutation-invariance theorem + regenerated sortedness facts + iteration-site audit; multi-seed differential",
+         "partial: sympy's own output determinism is observed only; symbols distinct as strings", "5 C15"),
+ "C16": ("Theorems: the row slicing yields consecutive disjoint pieces of the control and sensor sizes in sorted key order that concatenate to the row (any sizes); one output row per data row; NIS >= 0 (MathComp); constants (dt, weights, order) regenerated. Adapter vs by-hand run of the exported filter, what the adapter passes to the filter (recorded) vs the Coq slicing model, score formula, repeatability, parameter immutability.",
+         "Coq list theorems on the slicing model + MathComp NIS >= 0; recorded-call correspondence; by-hand differential",
+         "transform loop hand-modelled, source pinned by gen_adapter.py; numeric values are the filter's (C04/C05)", "5 C16"),
+ "C17": ("Theorems: get-then-set is the identity; a config field changes exactly that field (frame); unknown names refused; for any minimiser vector the fitted process-noise map names exactly the controls and is strictly positive. Operation sequences compared with the model in Coq; flatten/un-flatten on adversarial vectors; real fits.",
+         "Coq theorems on a parameter-store model + operation-sequence correspondence; oracle-quantified fit theorem",
+         "scipy minimize / sklearn clone are oracles; set_params and flatten pair hand-modelled, pinned by gen_adapter.py", "5 C17"),
+ "C18": ("Theorems: BFS soundness for any graph with distinct transition names; for the regenerated 3-state graph all 3x3 pairs found iff reachable, end in the target, shortest (by computation, finite); history invariant by induction. Real searches on real objects (incl. a fitted state), histories after branching / refused fits, minimum-sample guard, real grid searches.",
+         "Coq BFS soundness + finite table on the regenerated graph + history induction; real-object correspondence",
+         "search loop hand-modelled, source pinned; scikit-learn GridSearchCV is an oracle", "5 C18"),
+ "C19": ("Theorems over R about the expressions exported from the imported module on every run: rates = vec(q (0,w) q*), acceleration = rotated bias-corrected specific force / |q|^2 + gravity (|q|^2 <> 0), exact constant-acceleration integrals, orientation step, by ring/field; compiled Python model vs closed form in exact fractions.",
+         "ring/field proofs over R on regenerated expressions; compiled-model correspondence",
+         "standard real-number axioms (listed by Print Assumptions); sympy export structural", "5 C19"),
 }
 props = [json.loads(l) for l in open("/verif/properties.jsonl")]
 checks, na = [], []
